@@ -397,6 +397,8 @@ class FuncTypes:
             if n in ("max", "min") and e.args:
                 t = self.type_of(e.args[0], depth)
                 return elem(t) if t and len(e.args) == 1 else None
+            if n == "zip" and len(e.args) >= 2:
+                return ("list", ("tuple",) + tuple(elem(self.type_of(a, depth)) for a in e.args))
             if n == "enumerate" and e.args:
                 t = self.type_of(e.args[0], depth)
                 return ("list", ("tuple", ("prim", "int"), elem(t)))
